@@ -3,7 +3,7 @@
 import json, sys
 CHECKS = {
  "C14": dict(
-   text="The amd64 assembly of GF(2^255-19) (add, sub, mul, sqr, modp, cmov, cswap) and GF(2^448-2^224-1) (add, sub, addsub, mul, cmov, cswap), and the mulA24 routines of the X25519/X448 ladders, in both the legacy MULQ/ADCQ and the MULX/ADCX/ADOX variants selected by the CPU-feature byte, are executed symbolically from the assembler's own macro-expanded listing (go tool asm -S, regenerated from /repo on every run) and decided to meet the same contract as the portable Go bodies for every operand: congruent results mod p, modp bit-identical, cmov/cswap bit-identical; counterexamples are replayed natively against the real assembly with the feature byte forced.",
+   text="The amd64 assembly of GF(2^255-19) (add, sub, mul, sqr, modp, cmov, cswap) and GF(2^448-2^224-1) (add, sub, addsub, mul, cmov, cswap), and the mulA24 routines of the X25519/X448 ladders, in both the legacy MULQ/ADCQ and the MULX/ADCX/ADOX variants selected by the CPU-feature byte, are executed symbolically from the assembler's own macro-expanded listing (go tool asm -S, regenerated from /repo on every run) and decided to meet the same contract as the portable Go bodies for every operand: congruent results mod p, modp bit-identical, cmov/cswap bit-identical; counterexamples are replayed natively against the real assembly with the feature byte forced. Default-build-only Go logic of P-384 (identity test of affine points, IsOnCurve comparison) is analysed under the default amd64 tags with the Montgomery kernels uninterpreted; multi-lane KangarooTwelve equals the specification.",
    note="Integer amd64 kernels only; fp448 squarings are attempted but unknown (tier=deep, not claimed); ladderStep/diffAdd/double, fourq, p384, csidh, sidh assembly, all AVX2/NEON code and arm64 are not covered; bit-identity of whole-primitive outputs across builds follows only for operations that canonicalise (ToBytes/Modp/IsZero).",
    ref="§4 C14"),
  "C18": dict(
